@@ -1,7 +1,11 @@
 // Package rules holds the per-property rule sets (see /verif/DESIGN.md §3).
 package rules
 
-import "shipverif/internal/core"
+import (
+	"golang.org/x/tools/go/ssa"
+
+	"shipverif/internal/core"
+)
 
 // Checks maps a property id to its check.
 var Checks = map[string]func(*core.Program, *core.Report){}
@@ -52,4 +56,34 @@ func importRules(p *core.Program, r *core.Report, srcProp string, mapping map[st
 			r.Fail(dst, "imported rule matched nothing", "", "the rule shared with "+srcProp+" produced no instance: the mechanism is no longer recognisable")
 		}
 	}
+}
+
+// opRoot names the operation a construct belongs to, for instance keys of
+// recorded findings: an unexported helper all of whose static call sites lie
+// in one function is part of that function's operation (bounded ascent), so a
+// finding does not change its identity when the statement it sits in is moved
+// into a helper of the same operation.
+func opRoot(p *core.Program, fn *ssa.Function) *ssa.Function {
+	ensureCallSites(p)
+	for depth := 0; depth < 3 && fn != nil; depth++ {
+		if fn.Parent() != nil || fn.Object() == nil || fn.Object().Exported() {
+			return fn
+		}
+		var caller *ssa.Function
+		for _, cs := range gCallSites[fn] {
+			c := cs.Parent()
+			if c == fn {
+				continue
+			}
+			if caller != nil && caller != c {
+				return fn
+			}
+			caller = c
+		}
+		if caller == nil {
+			return fn
+		}
+		fn = caller
+	}
+	return fn
 }
